@@ -219,7 +219,7 @@ pub fn run_check(id: &str, tier: Tier) -> i32 {
             let meta = CheckMeta {
                 property: "C01",
                 level: "model_checking",
-                rule: "bounded-exhaustive enumeration of Fun programs (FUN-S: every well-typed main body up to a node bound over a small alphabet; FUN-SHADOW: binder kind x inner name x outer name x continuation kind; FUN-LIVE: 0..20 live variables x kind pattern x construct; FUN-LIT/OPS/CMP: boundary literals x placements, 5 operators, 6 comparisons x 5 forms; FUN-DATA: constructor arity 0..8, clause rotations; FUN-CTRL; codata; generated-name lookalikes) x argument tuples. Every program goes through the real parser, checker, translation, focusing, shrinking, linearization and x86-64 code generator; the printed file is assembled by GNU as, linked with the repository's driver template and io.c, and run as a process; stdout bytes and exit status are compared with the reference machine R-FUN. Distinct = distinct source texts that produced an executable.".into(),
+                rule: "bounded-exhaustive enumeration of Fun programs (FUN-S: every well-typed main body up to a node bound over a small alphabet; FUN-SHADOW: binder kind x inner name x outer name x continuation kind; FUN-LIVE: 0..20 live variables x kind pattern x construct; FUN-LIT/OPS/CMP: boundary literals x placements, 5 operators, 6 comparisons x 5 forms; FUN-DATA: constructor arity 0..8, clause rotations; FUN-CTRL; codata; generated-name lookalikes; FUN-SHADOW across/retype/reuse/rebind; FUN-ARITY: 0..5 entry parameters; FUN-POLY: polymorphic types at two instantiations; FUN-WIDE: xtors with 0..8 parameters) x argument tuples. Every program goes through the real parser, checker, translation, focusing, shrinking, linearization and x86-64 code generator; the printed file is assembled by GNU as, linked with the repository's driver template and io.c, and run as a process; stdout bytes and exit status are compared with the reference machine R-FUN. Distinct = distinct source texts that produced an executable.".into(),
                 assumptions: vec![
                     "GNU as after a syntax-only NASM->GAS transliteration stands in for yasm (not installed)".into(),
                     "R-FUN is the reading of the source semantics stated in the property (validated on the repository's examples by `vcheck selftest`)".into(),
@@ -230,7 +230,7 @@ pub fn run_check(id: &str, tier: Tier) -> i32 {
         }
         "C02" | "C03" | "C04" | "C05" | "C12" => {
             let rep = run_sharded(id, tier, &[]);
-            let fams = "the Fun families (FUN-S, FUN-SHADOW, FUN-LIVE, FUN-LIT/OPS/CMP, FUN-DATA, FUN-CTRL, codata, name lookalikes";
+            let fams = "the Fun families (FUN-S: every well-typed main body of <= 6 nodes at the quick tier (C12: 5), 7 at the thorough tier for C02/C03 (others 6); FUN-SHADOW incl. across/retype/reuse/rebind, FUN-LIVE, FUN-LIT/OPS/CMP, FUN-DATA, FUN-CTRL, codata, name lookalikes, FUN-ARITY, FUN-POLY, FUN-WIDE";
             let meta = match id {
                 "C02" => CheckMeta {
                     property: "C02",
@@ -241,13 +241,13 @@ pub fn run_check(id: &str, tier: Tier) -> i32 {
                 "C03" => CheckMeta {
                     property: "C03",
                     level: "model_checking",
-                    rule: format!("every translation output of {fams}, plus FUN-EFFECT with prints/goto/exit in argument positions) is run on R-CORE before and after the real Prog::focus(); full print sequence and result must agree; after focusing, binders along every path are checked to be non-zero, pairwise distinct and <= max_id.{}", format!(" G-CORE: additionally every hand-built Core program of the exhaustive enumeration `generate/corefam.rs` (statements of up to N nodes over cut at i64 / a pair type / a codata type, print, zero test, exit, call of a helper that rebinds its own parameters, mu, mutilde, case, cocase, constructor and destructor with arbitrary non-value arguments; binders drawn from two variable and two covariable names, so every kind of shadowing, also at a different type, occurs; two alphabets, N = {}), each confirmed well-typed by TC-CORE first.", "12/14 quick, 14/16 thorough")),
+                    rule: format!("every translation output of {fams}, plus FUN-EFFECT with prints/goto/exit in argument positions) is run on R-CORE before and after the real Prog::focus(); full print sequence and result must agree; after focusing, binders along every path are checked to be non-zero, pairwise distinct and <= max_id.{}", format!(" G-CORE: additionally every hand-built Core program of the exhaustive enumeration `generate/corefam.rs` (statements of up to N nodes over cut at i64 / a pair type / a two-constructor data type / a codata type, print, zero test, exit, call of a helper that rebinds its own parameters, mu, mutilde, case, cocase, constructor and destructor with arbitrary non-value arguments; binders drawn from two variable and two covariable names, so every kind of shadowing, also at a different type, occurs; three alphabets (all forms; int+pair; int+two-constructor type, one node larger), N = {}), each confirmed well-typed by TC-CORE first.", "12/14 quick, 14/16 thorough")),
                     assumptions: vec!["R-CORE's dynamic focusing (left-to-right, once for integers/data, by name for codata, consumer-first for codata cuts) is the reading of the property's evaluation order".into()],
                 },
                 "C04" => CheckMeta {
                     property: "C04",
                     level: "model_checking",
-                    rule: format!("every focused program of {fams}, FUN-EFFECT) is shrunk by the real shrink_prog; the AxCut machine (by name) on the output must agree with R-CORE on the focused input (output, result, termination); lifted definitions must have exactly the free variables of their body as parameters; the output must be well-scoped with unique binders per path.{}", format!(" G-CORE: additionally every hand-built Core program of the exhaustive enumeration `generate/corefam.rs` (statements of up to N nodes over cut at i64 / a pair type / a codata type, print, zero test, exit, call of a helper that rebinds its own parameters, mu, mutilde, case, cocase, constructor and destructor with arbitrary non-value arguments; binders drawn from two variable and two covariable names, so every kind of shadowing, also at a different type, occurs; two alphabets, N = {}), each confirmed well-typed by TC-CORE first.", "11/13 quick, 13/15 thorough")),
+                    rule: format!("every focused program of {fams}, FUN-EFFECT) is shrunk by the real shrink_prog; the AxCut machine (by name) on the output must agree with R-CORE on the focused input (output, result, termination); lifted definitions must have exactly the free variables of their body as parameters; the output must be well-scoped with unique binders per path.{}", format!(" G-CORE: additionally every hand-built Core program of the exhaustive enumeration `generate/corefam.rs` (statements of up to N nodes over cut at i64 / a pair type / a two-constructor data type / a codata type, print, zero test, exit, call of a helper that rebinds its own parameters, mu, mutilde, case, cocase, constructor and destructor with arbitrary non-value arguments; binders drawn from two variable and two covariable names, so every kind of shadowing, also at a different type, occurs; three alphabets (all forms; int+pair; int+two-constructor type, one node larger), N = {}), each confirmed well-typed by TC-CORE first.", "11/13 quick, 13/15 thorough")),
                     assumptions: vec!["focused Core is embedded into Core and run on the same R-CORE machine".into()],
                 },
                 "C05" => CheckMeta {
@@ -259,7 +259,7 @@ pub fn run_check(id: &str, tier: Tier) -> i32 {
                 _ => CheckMeta {
                     property: "C12",
                     level: "exploration",
-                    rule: format!("every program of {fams}, FUN-EFFECT) is accepted by the checker and taken through translation, focusing, shrinking, linearization and the three code generators under catch_unwind (only the documented capacity panics are tolerated); TC-CORE checks the translation output and the focused program, TC-AX the shrunk and the linearized program, with exactly the judgments listed in the property. Non-trivial = reached all stages; distinct = distinct source texts.{}", format!(" G-CORE: additionally every hand-built Core program of the exhaustive enumeration `generate/corefam.rs` (statements of up to N nodes over cut at i64 / a pair type / a codata type, print, zero test, exit, call of a helper that rebinds its own parameters, mu, mutilde, case, cocase, constructor and destructor with arbitrary non-value arguments; binders drawn from two variable and two covariable names, so every kind of shadowing, also at a different type, occurs; two alphabets, N = {}), each confirmed well-typed by TC-CORE first.", "11/13 quick, 13/15 thorough")),
+                    rule: format!("every program of {fams}, FUN-EFFECT) is accepted by the checker and taken through translation, focusing, shrinking, linearization and the three code generators under catch_unwind (only the documented capacity panics are tolerated); TC-CORE checks the translation output and the focused program, TC-AX the shrunk and the linearized program, with exactly the judgments listed in the property. Non-trivial = reached all stages; distinct = distinct source texts.{}", format!(" G-CORE: additionally every hand-built Core program of the exhaustive enumeration `generate/corefam.rs` (statements of up to N nodes over cut at i64 / a pair type / a two-constructor data type / a codata type, print, zero test, exit, call of a helper that rebinds its own parameters, mu, mutilde, case, cocase, constructor and destructor with arbitrary non-value arguments; binders drawn from two variable and two covariable names, so every kind of shadowing, also at a different type, occurs; three alphabets (all forms; int+pair; int+two-constructor type, one node larger), N = {}), each confirmed well-typed by TC-CORE first.", "11/13 quick, 13/15 thorough")),
                     assumptions: vec!["TC-CORE/TC-AX are independent of the repository's own type information except for the annotations carried by the programs".into()],
                 },
             };
@@ -295,7 +295,7 @@ pub fn run_check(id: &str, tier: Tier) -> i32 {
             let meta = CheckMeta {
                 property: "C15",
                 level: "exploration",
-                rule: "(+) every program of the Fun families plus polymorphic declarations at several instances, nested instances, covariable parameters and shadowing must be accepted by the real checker; (-) for every base program (all focused-family programs, a 1/40 (quick) or 1/4 (thorough) slice of FUN-S) every applicable site x 24 single-edit classes (argument count +-1 in call/constructor/destructor, wrong-type operand, unbound variable/covariable/definition/constructor/destructor/type, missing/extra/duplicated clause, extra/missing binder, extra/missing type argument, constructor at i64, cocase at a data type, literal at a declared type) and the program-level edits (duplicate definition/parameter/type/constructor/destructor, variable where a covariable is required) is applied to the parsed tree and handed to Program::check, which must return an error. Distinct = distinct printed mutants.".into(),
+                rule: "(+) every program of the Fun families plus polymorphic declarations at several instances, nested instances, covariable parameters and shadowing must be accepted by the real checker; (-) for every base program (all focused-family programs, a 1/40 (quick) or 1/4 (thorough) slice of FUN-S) every applicable site x 30 single-edit classes (argument count +-1 in call/constructor/destructor, wrong-type operand, unbound variable/covariable/definition/constructor/destructor/type, missing/extra/duplicated clause, extra/missing binder, extra/missing type argument, constructor at i64, cocase at a data type, literal at a declared type; with twin declarations in front: constructor / clauses / destructor of a different declared type instantiated at the same arguments, a goto target, an argument name or a variable re-bound by a new innermost binder at the other chirality or at a foreign type) and the program-level edits (duplicate definition/parameter/type/constructor/destructor, variable where a covariable is required) is applied to the parsed tree and handed to Program::check, which must return an error. Distinct = distinct printed mutants.".into(),
                 assumptions: vec!["each edit class is ill-typed by construction (no typing derivation exists for the edited tree)".into()],
             };
             finish(&meta, tier, started, rep, Map::new())
